@@ -388,3 +388,16 @@ def main(ctx):
                            "affine Montgomery-style ladder (production), "
                            "validated against P-256 vectors each run")
     return rep
+
+
+def mixed_cases(ctx):
+    groups = []
+    for names in catalog.same_length_groups()[:4]:
+        items = []
+        for kind in ("G*k", "k*fresh", "Q*k", "legacy", "mul_add",
+                     "mul_add-gen"):
+            for nm in names:
+                for (i, j) in ((5, 7), (22, 3), (30, 24)):
+                    items.append(("real", dict(curve=nm, kind=kind, i=i, j=j)))
+        groups.append(items)
+    return groups
